@@ -131,6 +131,9 @@ func (p *polling) onDataRequest(ctx *types.HttpContext) {
 	if isBinary && p.Protocol() == 4 {
 		p.dataCtx.Store(nil)
 		p.OnError("invalid content", nil)
+		// the request still has to be answered
+		ctx.SetStatusCode(http.StatusBadRequest)
+		ctx.Write(nil)
 		return
 	}
 
